@@ -27,8 +27,8 @@
 
   queueOrder   : the if/elif chain at the top of `FortranReader.__next__` that serves what is buffered before
                  anything new is read: which buffer each branch returns from, in source order (`pending` then
-                 `docbuffer`); `nextHead` = the normalised text of everything in front of the `while` loop (the
-                 chain and the loop locals); `passBackMethod` = normalised text of `FortranReader.pass_back`,
+                 `docbuffer`); `nextHead` = the normalised text of that chain (the `if` statements in front of the
+                 `while` loop; the assignments to the loop's locals are not part of it); `passBackMethod` = normalised text of `FortranReader.pass_back`,
                  `passBackFront` = it puts the line at the head of `pending` (`insert(0, line)`) rather than
                  behind it (`append`); `readDocstring` = normalised text of `sourceform.read_docstring`
                  (-> `PassBack.readerOrder`, `PassBack.next`, `passBack`, `collectDocs`)
@@ -358,7 +358,8 @@ def queue_protocol():
                     raise ValueError("FortranReader.__next__: the chain in front of the loop ends with an `else`")
             continue
         if isinstance(st, ast.Assign) and len(st.targets) == 1 and isinstance(st.targets[0], ast.Name):
-            text.append(ast.unparse(st))
+            # a local of the loop (`continued = False` ...): not part of the chain, and which locals the loop keeps is
+            # an implementation choice (`done` / `while True: ... break`); their effect is tied by the step streams
             continue
         raise ValueError(f"FortranReader.__next__: unrecognised statement in front of the loop: {ast.unparse(st)[:80]!r}")
     if sorted(order) != ["docbuffer", "pending"]:
@@ -429,7 +430,7 @@ def translate():
         return out + ["]", ""]
 
     lines += strlist("queueOrder", "which buffer each branch of the if/elif chain at the top of `FortranReader.__next__` returns from, in source order", qorder)
-    lines += strlist("nextHead", "everything in front of the `while` loop of `FortranReader.__next__` (normalised source text)", qtext)
+    lines += strlist("nextHead", "the `if` statements in front of the `while` loop of `FortranReader.__next__` (normalised source text)", qtext)
     lines += strlist("passBackMethod", "`FortranReader.pass_back` (normalised source text)", pbtext)
     lines += ["/-- `pass_back` puts the line at the head of `pending` -/", "def passBackFront : Bool := %s" % b(pbfront), ""]
     lines += strlist("readDocstring", "`ford.sourceform.read_docstring` (normalised source text)", rdtext)
